@@ -68,6 +68,8 @@ func genDefaults(r *Rng) admissionapi.PodSecurityDefaults {
 	return admissionapi.PodSecurityDefaults{Enforce: lv(), EnforceVersion: vv(), Audit: lv(), AuditVersion: vv(), Warn: lv(), WarnVersion: vv()}
 }
 
+var catCache []PodCase
+
 type AdmitKnobs struct {
 	Kind        string // "pod" | "ctl" | "ns" | "" (mixed)
 	FaultPct    int    // % of cases with a dependency fault
@@ -162,6 +164,12 @@ func genAdmitCase(r *Rng, i int, k AdmitKnobs) *AdmitCase {
 		kind = pick(r, []string{"pod", "pod", "pod", "ctl", "ctl", "ns", "unknown"})
 	}
 	pc := genPod(r.Fork(), i)
+	if r.Chance(1, 4) { // a catalogue pod: compliant but for one field set to one catalogued value
+		if catCache == nil {
+			catCache = catalogPods()
+		}
+		pc = PodCase{Pod: catCache[r.Intn(len(catCache))].Pod.DeepCopy(), Base: "catalog"}
+	}
 	pod := pc.Pod
 	pod.Name = a.Name
 	if r.Chance(1, 3) || k.ExemptHeavy {
